@@ -1887,7 +1887,53 @@ def builtin_reduce_model(eng, f, c, init, node):
         return V.And(init, all_true(eng, c))
     if c.elem == "bool" and name == "or_":
         return V.Or(init, any_true(eng, c))
+    lam = _or_lambda(f)
+    if lam is not None:
+        return exists_model(eng, lam, c, init, node)
     raise EngineError("reduce over a symbolic sequence with an unmodelled function")
+
+
+def _or_lambda(f):
+    """`lambda x, y: x or P(y)` (P mentions y only): returns a one-argument lambda for P, else None"""
+    from .engine import LambdaV
+
+    if not isinstance(f, LambdaV):
+        return None
+    a = f.node.args
+    if len(a.args) != 2 or a.vararg or a.kwarg or a.kwonlyargs:
+        return None
+    x, y = a.args[0].arg, a.args[1].arg
+    b = f.node.body
+    if not (isinstance(b, ast.BoolOp) and isinstance(b.op, ast.Or) and len(b.values) == 2 and isinstance(b.values[0], ast.Name) and b.values[0].id == x):
+        return None
+    if any(isinstance(nd, ast.Name) and nd.id == x for nd in ast.walk(b.values[1])):
+        return None
+    node = ast.Lambda(args=ast.arguments(posonlyargs=[], args=[ast.arg(arg=y)], kwonlyargs=[], kw_defaults=[], defaults=[]), body=b.values[1])
+    ast.copy_location(node, f.node)
+    ast.fix_missing_locations(node)
+    return LambdaV(node, f.env, f.module)
+
+
+def exists_model(eng, pred, c, init, node):
+    """reduce(lambda x, y: x or P(y), c, init) over a list of unknown length == init or (exists k. P(c[k])):
+    a fresh boolean r with its two defining facts (assumed contract of functools.reduce, DESIGN 6.3):
+    not r => init is false and P fails for every element;  r => init or P holds for a witness element"""
+    from .contract import ForAll
+
+    n = V.L(c)
+
+    def P(k):
+        return V.truthy(eng.call(pred, [V.nth(c, k)], {}, node))
+
+    r = eng.fresh_bool("exists_" + ast.unparse(pred.node.body)[:30])
+    i0 = V.truthy(init)
+    eng.register_forall(ForAll(lambda k: V.Implies(V.And(V.Not(r), k >= 0, k < n), V.Not(P(k))), over=c))
+    w = eng.fresh_int("exists_witness")
+    eng.assume(V.Implies(V.Not(r), V.Not(i0)))
+    eng.assume(V.Implies(r, V.Or(i0, V.And(w >= 0, w < n, P(w)))))
+    if hasattr(eng, "add_index_term"):
+        eng.add_index_term(w)
+    return r
 
 
 @ext("operator.and_", "and_")
